@@ -492,7 +492,9 @@ fn oor_index(rng: &mut Rng, n: u64) -> u64 {
         4 => x | 1 << 8 | if n > 256 { 1 << 16 } else { 0 },
         5 => x | 1 << 16 | if n > 65_536 { 1 << 20 } else { 0 },
         6 => x | 1 << 32,
-        _ => u64::MAX - rng.below(3),
+        // (no values near 2^64: index arithmetic on them wraps in release builds and traps in builds
+        // with overflow checks, which is C18's subject, not this one's)
+        _ => x | 1 << 40,
     }
     .max(n)
 }
